@@ -35,6 +35,7 @@ ASSUMPTIONS = [
     "steps after the residual is numerically exhausted are not judged (known finding K2 of C01)",
     "`tolerance` is the user's absolute 'this is zero' threshold (item norms) and relative pseudo-inverse cut (selected spectrum): cases where a residual item norm or the squared relative spectrum of the selections is within 100x of it are skipped",
 ]
+RULE = RULE + " " + forms.RULE_SUFFIX
 KINDS = ("gauss", "gauss", "uniform", "scaled1", "clustered", "lattice", "lowrank_hi", "copies", "multiscale")
 TOL_PI = 1e-6
 
